@@ -4,7 +4,7 @@
    canonical serialisation the Go harness prints for the implementation. *)
 From Coq Require Import NArith ZArith List Bool.
 From StunV Require Import Base.ListAux Base.Outcome Base.Bytes Base.Slice Model.MsgType Model.Message Model.Rfc Model.RfcAttrs
-  Model.Crc32 Model.Sha1 Model.Sha256 Model.Md5 Model.Hmac Model.Attrs Model.Ops Model.Agent Model.AgentConc Model.Client Model.Uri.
+  Model.Crc32 Model.Sha1 Model.Sha256 Model.Md5 Model.Hmac Model.Attrs Model.Ops Model.Agent Model.AgentConc Model.Client Model.Uri Model.Alloc.
 Import ListNotations.
 Open Scope N_scope.
 
@@ -404,6 +404,37 @@ Definition run_c14 (sub : N) (args : list (list N)) : list N :=
   | _, _ => bad_case
   end.
 
+(* C20: which allocation sites of a hot-path operation fire.
+   2001 <[op; parameters...]> <data> ...   result: one 0/1 per site, then 1 if any site fires
+   [1; capRaw; capAttrs] <data>     Decode(data, m) into a Message with these capacities: Raw, Attributes
+   [2; type; capDest] <data>        text getter (USERNAME, REALM, NONCE, SOFTWARE) into a destination
+   [3; type; capIP] <data>          XOR address getter       [4; type; capIP] <data>   plain address getter
+   [5; capReason] <data>            ERROR-CODE getter        [6; capDest] <data>       UNKNOWN-ATTRIBUTES getter
+   [7] <data>  FINGERPRINT check    [8; capRaw] <data> <key>  MESSAGE-INTEGRITY check (only "any": re-keying and digest behind Raw cannot be observed apart)    [9] <data>  Get / Contains
+   [10; capRaw; capAttrs] <setter>... Build with pointer setters: Raw, Attributes, setter scratch *)
+Definition CUR_HMAC_REKEY_FIXED : bool := true.
+Definition with_any (l : list N) : list N := l ++ [any_of l].
+Definition run_c20 (sub : N) (args : list (list N)) : list N :=
+  match sub, args with
+  | 1, [1; capRaw; capAttrs] :: data :: _ => with_any (decode_sites capRaw capAttrs data)
+  | 1, [1; capRaw; capAttrs] :: [] => with_any (decode_sites capRaw capAttrs [])
+  | 1, [2; t; capDest] :: data :: _ => with_any (text_get_sites capDest t data)
+  | 1, [3; t; capIP] :: data :: _ => with_any (xor_get_sites capIP t data)
+  | 1, [4; t; capIP] :: data :: _ => with_any (mapped_get_sites capIP t data)
+  | 1, [5; capReason] :: data :: _ => with_any (errcode_get_sites capReason data)
+  | 1, [6; capDest] :: data :: _ => with_any (unknown_get_sites capDest data)
+  | 1, [7] :: _ => with_any [0]
+  | 1, [8; capRaw] :: data :: key :: _ => [any_of (mi_check_sites CUR_HMAC_REKEY_FIXED capRaw data key)]
+  | 1, [8; capRaw] :: data :: [] => [any_of (mi_check_sites CUR_HMAC_REKEY_FIXED capRaw data [])]
+  | 1, [9] :: _ => with_any [0]
+  | 1, [10; capRaw; capAttrs] :: sfs =>
+    match parse_setters (length sfs) sfs with
+    | Some (ss, _) => with_any (build_sites CUR_HMAC_REKEY_FIXED capRaw capAttrs ss)
+    | None => bad_case
+    end
+  | _, _ => bad_case
+  end.
+
 (* C16 / C17: URIs.
    1601 <string>: ParseURI — [0; scheme; port; proto; |host|; host...] or [1] (error); 3 = the model ran
         out of fuel (pinned recursive version only)
@@ -509,6 +540,7 @@ Definition run (cmd : N) (args : list (list N)) : list N :=
   | 17 => run_c17 (cmd mod 100) args
   | 18 => run_c18 (cmd mod 100) args
   | 19 => run_c19 (cmd mod 100) args
+  | 20 => run_c20 (cmd mod 100) args
   | _ => bad_case
   end.
 
